@@ -354,3 +354,252 @@ Proof.
   split; [unfold nowrap, MAXT; vm_compute; discriminate|]. split; [vm_compute; tauto|]. split; [vm_compute; tauto|reflexivity].
 Qed.
 
+
+(* ---------------------------------------------------------------- C/E: timers that were never re-armed *)
+Record NR (tk : Z) (s : state) : Prop := mkNR {
+  nr_uniq : forall i j, (i < ntasks s)%nat -> (j < ntasks s)%nat -> owner (tasks s i) = tk -> owner (tasks s j) = tk -> i = j;
+  nr_handle : forall i, (i < ntasks s)%nat -> owner (tasks s i) = tk -> status (tasks s i) = Pend false -> handle s tk = Some i;
+  nr_nofire : forall i, (i < ntasks s)%nat -> owner (tasks s i) = tk -> (exists c, status (tasks s i) = Pend c) ->
+              forall o, In o (log s) -> fires_for tk o = false;
+  nr_deadline : forall i, (i < ntasks s)%nat -> owner (tasks s i) = tk ->
+              exists t0 tau, In (OSent tk t0 tau) (log s) /\ tau <> 0 /\ deadline (tasks s i) = t0 + Z.max tau 0
+}.
+
+Definition noresched (tk : Z) (e : event) : bool := negb (resched_on tk e).
+
+Lemma NR_init : forall tk, NR tk init.
+Proof. intros. constructor; cbn; intros; lia. Qed.
+
+Lemma fires_bounded : forall s tk o, Inv s -> In o (log s) -> fires_for tk o = true -> tk <= gen s.
+Proof. intros s tk o HI Hin Hf. apply (i_log s HI) in Hin. destruct o; cbn in *; try discriminate; apply Z.eqb_eq in Hf; subst; assumption. Qed.
+
+Lemma NR_step : forall tk s e, Inv s -> NR tk s -> okstep s e -> noresched tk e = true -> NR tk (step s e).
+Proof.
+  intros tk s e HI [U H Q D] Hok Ha.
+  assert (Hnew : is_issue e = true -> ticket_step TICKET_INITIAL (gen s) = gen s + 1).
+  { intros Hi. specialize (Hok Hi). rewrite ticket_step_spec. destruct (Z.ltb_spec MAXT (gen s + 1)); lia. }
+  pose proof (i_task s HI) as IT. pose proof (i_handle s HI) as IH.
+  constructor.
+  - (* uniqueness *)
+    intros i j. destruct e; cbn [is_issue noresched resched_on] in *; try specialize (Hnew eq_refl); unf; proj; brk; proj;
+      intros Hi Hj Oi Oj; try (apply U; assumption || lia); try lia; try discriminate.
+    all: try (exfalso; match goal with H : context [owner (tasks ?s0 ?k)] |- _ => destruct (IT k ltac:(lia)); lia end).
+    all: try (subst; apply U; solve [assumption | lia]).
+    all: try (exfalso; unfold noresched, resched_on in Ha; subst; rewrite Z.eqb_refl in Ha; discriminate).
+  - (* handle *)
+    intros i. destruct e; cbn [is_issue noresched resched_on] in *; try specialize (Hnew eq_refl); unf; proj; brk; proj;
+      intros Hi Oi Si; try (apply H; assumption || lia); try lia; try discriminate; try reflexivity.
+    all: try (exfalso; match goal with H : context [owner (tasks ?s0 ?k)] |- _ => destruct (IT k ltac:(lia)); lia end).
+    all: try (exfalso; unfold noresched, resched_on in Ha; subst; rewrite Z.eqb_refl in Ha; discriminate).
+    all: try (subst; apply H; solve [assumption | lia]).
+    all: try (subst; reflexivity).
+    all: try (exfalso; pose proof (H i Hi Oi Si) as HH; subst; congruence).
+    all: try (exfalso; apply n; apply U; solve [assumption | lia | congruence]).
+  - (* no fire while pending *)
+    intros i Hi Oi (c & Si) o. rewrite step_log, new_obs_delta. intros Hin. apply in_app_or in Hin.
+    assert (Hb : forall o, In o (log s) -> fires_for tk o = true -> tk <= gen s) by (intros; eapply fires_bounded; eassumption).
+    revert Hi Oi Si Hin.
+    destruct e; cbn [is_issue noresched resched_on] in *; try specialize (Hnew eq_refl); unfold delta; cbn zeta; unf; proj; brk; proj;
+      intros Hi Oi Si Hin; cbn [In] in Hin;
+      repeat match goal with H : _ \/ _ |- _ => destruct H | H : False |- _ => destruct H end; subst o || idtac;
+      try reflexivity; try discriminate; try lia;
+      try (eapply Q; [| | | eassumption]; [eassumption || lia| assumption | eexists; eassumption]).
+    all: try (match goal with H1 : In ?o (log ?s0) |- fires_for ?k ?o = false =>
+                 destruct (fires_for k o) eqn:F; [exfalso; pose proof (Hb o H1 F); lia | reflexivity] end).
+    all: try (eapply (Q i); [lia | eassumption | eexists; eassumption | eassumption]).
+    all: try (eapply (Q n); [lia | eassumption | eexists; eassumption | eassumption]).
+    all: try (exfalso; unfold noresched, resched_on in Ha; subst; rewrite Z.eqb_refl in Ha; discriminate).
+    all: cbn [fires_for]; match goal with |- (?a =? ?b) = false => destruct (Z.eqb_spec a b); [|reflexivity] end;
+         exfalso; apply n; apply U; solve [assumption | lia].
+  - (* deadline *)
+    intros i.
+    destruct e; cbn [is_issue noresched resched_on] in *; try specialize (Hnew eq_refl); unf; proj; brk; proj;
+      intros Hi Oi;
+      try (destruct (D i ltac:(lia) Oi) as (t0 & tau0 & D1 & D2 & D3); exists t0, tau0; split; [first [assumption | right; assumption] | split; assumption]).
+    all: try (exfalso; unfold noresched, resched_on in Ha; subst; rewrite Z.eqb_refl in Ha; discriminate).
+    all: try (eexists _, _; split; [left; subst; reflexivity | split; [| reflexivity]]; lia).
+    all: try congruence.
+    all: try (match goal with Oi : owner (tasks ?s0 ?k) = _ |- _ =>
+                destruct (D k ltac:(lia) Oi) as (t0 & tau0 & D1 & D2 & D3); exists t0, tau0;
+                split; [first [assumption | right; assumption] | split; assumption] end).
+Qed.
+
+Lemma reach_NR : forall evs tk, nowrap evs -> no_resched tk evs ->
+  NR tk (run init evs) /\ Inv (run init evs).
+Proof.
+  intros evs tk Hnw Hnr.
+  destruct (run_inv (NR tk) (noresched tk) (NR_step tk) evs init Inv_init (NR_init tk) Hnw) as (H1 & H2 & _).
+  - unfold no_resched in Hnr. exact Hnr.
+  - split; assumption.
+Qed.
+
+(* a step reports a timer expiry for tk only through a task of tk whose sleep is over *)
+Lemma fire_inv : forall s e tk o, In o (new_obs s e) -> fires_for tk o = true ->
+  exists i, e = Step i /\ (i < ntasks s)%nat /\ owner (tasks s i) = tk /\ status (tasks s i) = Pend false /\
+            deadline (tasks s i) <= now s /\ (o = ORemoved tk (now s) \/ o = OErrKey tk (now s)).
+Proof.
+  intros s e tk o Ho Hf. rewrite new_obs_delta in Ho.
+  destruct e; unfold delta in Ho; cbn zeta in Ho;
+    repeat match type of Ho with context [if ?c then _ else _] => let E := fresh "E" in destruct c eqn:E
+                              | context [match ?c with _ => _ end] => let E := fresh "E" in destruct c eqn:E end;
+    cbn [In] in Ho; try tauto; destruct Ho as [<-|[]]; cbn [fires_for] in Hf; try discriminate;
+    apply Z.eqb_eq in Hf; exists i;
+    repeat match goal with H : (_ <? _)%nat = true |- _ => apply Nat.ltb_lt in H | H : (_ <=? _) = true |- _ => apply Z.leb_le in H end;
+    subst; repeat split; auto.
+Qed.
+
+(* C: at most once, and not before the timeout *)
+Lemma timeout_at_most_once : forall evs e tk o, nowrap (evs ++ [e]) -> no_resched tk evs ->
+  In o (new_obs (run init evs) e) -> fires_for tk o = true ->
+  forall o', In o' (log (run init evs)) -> fires_for tk o' = false.
+Proof.
+  intros evs e tk o Hnw Hnr Ho Hf. destruct (reach_NR evs tk (nowrap_app_l _ _ Hnw) Hnr) as (HN & HI).
+  destruct (fire_inv _ _ _ _ Ho Hf) as (i & -> & Hi & Oi & Si & _).
+  eapply (nr_nofire tk _ HN i); try eassumption. eexists; eassumption.
+Qed.
+
+Lemma timeout_not_before : forall evs e tk o, nowrap (evs ++ [e]) -> no_resched tk evs ->
+  In o (new_obs (run init evs) e) -> fires_for tk o = true ->
+  exists t0 tau, In (OSent tk t0 tau) (log (run init evs)) /\ tau <> 0 /\ t0 + Z.max tau 0 <= now (run init evs) /\
+                 (o = ORemoved tk (now (run init evs)) \/ o = OErrKey tk (now (run init evs))).
+Proof.
+  intros evs e tk o Hnw Hnr Ho Hf. destruct (reach_NR evs tk (nowrap_app_l _ _ Hnw) Hnr) as (HN & HI).
+  destruct (fire_inv _ _ _ _ Ho Hf) as (i & -> & Hi & Oi & Si & Hd & Ho').
+  destruct (nr_deadline tk _ HN i Hi Oi) as (t0 & tau & D1 & D2 & D3). exists t0, tau. repeat split; try assumption. lia.
+Qed.
+
+(* requests without a timeout are never removed by a timer: removed_silent_no_timer above *)
+
+(* E: cancel *)
+Definition CN (tk : Z) (s : state) : Prop :=
+  tk <= gen s /\ forall i, (i < ntasks s)%nat -> owner (tasks s i) = tk -> status (tasks s i) <> Pend false.
+
+Lemma CN_step : forall tk s e, Inv s -> CN tk s -> okstep s e -> noresched tk e = true -> CN tk (step s e).
+Proof.
+  intros tk s e HI (Hb & HC) Hok Ha.
+  assert (Hnew : is_issue e = true -> ticket_step TICKET_INITIAL (gen s) = gen s + 1).
+  { intros Hi. specialize (Hok Hi). rewrite ticket_step_spec. destruct (Z.ltb_spec MAXT (gen s + 1)); lia. }
+  pose proof (gen_step s e Hok) as Hg.
+  split. { destruct (is_issue e); lia. }
+  intros i. destruct e; cbn [is_issue noresched resched_on] in *; try specialize (Hnew eq_refl); unf; proj; brk; proj;
+    intros Hi Oi; try (apply HC; assumption || lia); try discriminate; try lia.
+  all: try (exfalso; unfold noresched, resched_on in Ha; subst; rewrite Z.eqb_refl in Ha; discriminate).
+  all: try (subst; apply HC; solve [assumption | lia]).
+Qed.
+
+Lemma cancel_makes_CN : forall tk s, Inv s -> NR tk s -> tk <= gen s -> CN tk (step s (Cancel tk)).
+Proof.
+  intros tk s HI [U H Q D] Hb. pose proof (i_task s HI) as IT.
+  split. { unf; proj; brk; proj; assumption. }
+  intros i. unf; proj; brk; proj; intros Hi Oi Si; try discriminate.
+  all: try (pose proof (H i Hi Oi Si) as HH; congruence).
+  all: try (destruct (IT i Hi) as (_ & HT); rewrite Oi in HT; congruence).
+Qed.
+
+Lemma forallb_app_inv : forall (f : event -> bool) a b, forallb f (a ++ b) = true -> forallb f a = true /\ forallb f b = true.
+Proof. intros. rewrite forallb_app in H. apply andb_prop in H. exact H. Qed.
+
+Lemma cancel_effective_partial : forall evs1 evs2 e tk t0 tau,
+  nowrap (evs1 ++ Cancel tk :: evs2 ++ [e]) -> no_resched tk (evs1 ++ Cancel tk :: evs2) ->
+  In (OSent tk t0 tau) (log (run init evs1)) ->
+  forall o, In o (new_obs (run init (evs1 ++ Cancel tk :: evs2)) e) -> fires_for tk o = false.
+Proof.
+  intros evs1 evs2 e tk t0 tau Hnw Hnr Hsent o Ho.
+  unfold no_resched in Hnr. apply forallb_app_inv in Hnr. destruct Hnr as (Hnr1 & Hnr2). cbn [forallb] in Hnr2.
+  apply andb_prop in Hnr2. destruct Hnr2 as (_ & Hnr2).
+  unfold nowrap in Hnw. rewrite issues_app, issues_cons, issues_app, issues_cons in Hnw. cbn [is_issue] in Hnw. change (issues []) with 0 in Hnw.
+  pose proof (issues_nonneg evs1). pose proof (issues_nonneg evs2).
+  assert (Hnw1 : nowrap evs1) by (unfold nowrap; destruct (is_issue e); lia).
+  destruct (reach_NR evs1 tk Hnw1 Hnr1) as (HN & HI). destruct (reach_inv evs1 Hnw1) as (_ & Hg).
+  set (s1 := run init evs1) in *.
+  assert (Hb : tk <= gen s1). { apply (i_log s1 HI) in Hsent. exact Hsent. }
+  assert (Hok : okstep s1 (Cancel tk)) by (intros Hx; discriminate).
+  pose proof (cancel_makes_CN tk s1 HI HN Hb) as HC. pose proof (Inv_step s1 _ HI Hok) as HI2.
+  pose proof (gen_step s1 _ Hok) as Hg2. cbn [is_issue] in Hg2.
+  destruct (run_inv (CN tk) (noresched tk) (CN_step tk) evs2 (step s1 (Cancel tk)) HI2 HC) as (HC3 & HI3 & _).
+  { rewrite Hg2, Hg. destruct (is_issue e); lia. }
+  { exact Hnr2. }
+  rewrite run_app in Ho. cbn [run fold_left] in Ho. fold (run (step s1 (Cancel tk)) evs2) in Ho.
+  destruct (fires_for tk o) eqn:Hf; [exfalso|reflexivity].
+  destruct (fire_inv _ _ _ _ Ho Hf) as (i & _ & Hi & Oi & Si & _). destruct HC3 as (_ & HC3). exact (HC3 i Hi Oi Si).
+Qed.
+
+(* the same statement without the "never re-armed before" premise is false: finding F23 *)
+Lemma cancel_effective_refuted : exists evs1 evs2 e tk t0 tau o,
+  nowrap (evs1 ++ Cancel tk :: evs2 ++ [e]) /\ no_resched tk evs2 /\
+  In (OSent tk t0 tau) (log (run init evs1)) /\
+  In o (new_obs (run init (evs1 ++ Cancel tk :: evs2)) e) /\ fires_for tk o = true.
+Proof.
+  exists [Search 3; Resched 2 (Some 4); Step 0%nat; DoneCb 0%nat], [Advance 4], (Step 1%nat), 2, 0, 3, (ORemoved 2 4).
+  split; [unfold nowrap, MAXT; vm_compute; discriminate|]. split; [reflexivity|]. split; [vm_compute; tauto|].
+  split; [vm_compute; tauto|reflexivity].
+Qed.
+
+(* superseded deadline: after the second re-arm the task of the first re-arm still fires *)
+Lemma superseded_fires_refuted : exists evs e tk t1 tau' o,
+  nowrap (evs ++ [e]) /\ last evs (Lag 0) = Resched tk (Some tau') /\ t1 = now (run init evs) /\
+  In o (new_obs (run init (evs ++ [Advance 4])) e) /\ fires_for tk o = true /\
+  now (run init (evs ++ [Advance 4])) < t1 + tau'.
+Proof.
+  exists [Search 3; Resched 2 (Some 4); Step 0%nat; DoneCb 0%nat; Resched 2 (Some 9)], (Step 1%nat), 2, 0, 9, (ORemoved 2 4).
+  split; [unfold nowrap, MAXT; vm_compute; discriminate|]. split; [reflexivity|]. split; [reflexivity|].
+  split; [vm_compute; tauto|]. split; [reflexivity|]. vm_compute. reflexivity.
+Qed.
+
+(* first re-arm (no earlier reschedule): only the new deadline can fire *)
+Definition SS (tk D : Z) (s : state) : Prop :=
+  tk <= gen s /\ forall i, (i < ntasks s)%nat -> owner (tasks s i) = tk -> status (tasks s i) = Pend false -> deadline (tasks s i) = D.
+
+Lemma SS_step : forall tk D s e, Inv s -> SS tk D s -> okstep s e -> noresched tk e = true -> SS tk D (step s e).
+Proof.
+  intros tk D s e HI (Hb & HC) Hok Ha.
+  assert (Hnew : is_issue e = true -> ticket_step TICKET_INITIAL (gen s) = gen s + 1).
+  { intros Hi. specialize (Hok Hi). rewrite ticket_step_spec. destruct (Z.ltb_spec MAXT (gen s + 1)); lia. }
+  pose proof (gen_step s e Hok) as Hg.
+  split. { destruct (is_issue e); lia. }
+  intros i. destruct e; cbn [is_issue noresched resched_on] in *; try specialize (Hnew eq_refl); unf; proj; brk; proj;
+    intros Hi Oi Si; try (apply HC; assumption || lia); try discriminate; try lia.
+  all: try (exfalso; unfold noresched, resched_on in Ha; subst; rewrite Z.eqb_refl in Ha; discriminate).
+  all: try (subst; apply HC; solve [assumption | lia]).
+Qed.
+
+Lemma resched_makes_SS : forall tk tau s, Inv s -> NR tk s -> tk <= gen s -> has_timer s tk = true ->
+  SS tk (now s + Z.max (match tau with Some t => t | None => tmo s tk end) 0) (step s (Resched tk tau)).
+Proof.
+  intros tk tau s HI [U H Q D] Hb Ht. pose proof (i_task s HI) as IT. pose proof (i_handle s HI) as IH.
+  split. { unf; proj; brk; proj; assumption. }
+  intros i. unf; proj; rewrite Ht; destruct tau; proj; brk; proj; intros Hi Oi Si; try discriminate; try congruence; try lia.
+  all: try (assert (Hi' : (i < ntasks s)%nat) by lia; pose proof (H i Hi' Oi Si) as HH; congruence).
+Qed.
+
+
+Lemma superseded_partial : forall evs1 evs2 e tk tau t0 tau0,
+  nowrap (evs1 ++ Resched tk tau :: evs2 ++ [e]) -> no_resched tk evs1 -> no_resched tk evs2 ->
+  In (OSent tk t0 tau0) (log (run init evs1)) ->
+  forall o, In o (new_obs (run init (evs1 ++ Resched tk tau :: evs2)) e) -> fires_for tk o = true ->
+  now (run init evs1) + Z.max (match tau with Some t => t | None => tmo (run init evs1) tk end) 0
+    <= now (run init (evs1 ++ Resched tk tau :: evs2)).
+Proof.
+  intros evs1 evs2 e tk tau t0 tau0 Hnw Hnr1 Hnr2 Hsent o Ho Hf.
+  unfold nowrap in Hnw. rewrite issues_app, issues_cons, issues_app, issues_cons in Hnw. cbn [is_issue] in Hnw. change (issues []) with 0 in Hnw.
+  pose proof (issues_nonneg evs1). pose proof (issues_nonneg evs2).
+  assert (Hnw1 : nowrap evs1) by (unfold nowrap; destruct (is_issue e); lia).
+  destruct (reach_NR evs1 tk Hnw1 Hnr1) as (HN & HI). destruct (reach_inv evs1 Hnw1) as (_ & Hg).
+  set (s1 := run init evs1) in *.
+  assert (Hb : tk <= gen s1). { apply (i_log s1 HI) in Hsent. exact Hsent. }
+  assert (Hok : okstep s1 (Resched tk tau)) by (intros Hx; discriminate).
+  set (D := now s1 + Z.max (match tau with Some t => t | None => tmo s1 tk end) 0).
+  assert (HC : SS tk D (step s1 (Resched tk tau))).
+  { destruct (has_timer s1 tk) eqn:Ht.
+    - apply resched_makes_SS; assumption.
+    - assert (E : step s1 (Resched tk tau) = s1) by (cbn [step]; rewrite Ht; reflexivity). rewrite E.
+      split; [assumption|]. intros i Hi Oi _. destruct (i_task s1 HI i Hi) as (_ & HT). rewrite Oi in HT. congruence. }
+  pose proof (Inv_step s1 _ HI Hok) as HI2. pose proof (gen_step s1 _ Hok) as Hg2. cbn [is_issue] in Hg2.
+  destruct (run_inv (SS tk D) (noresched tk) (SS_step tk D) evs2 (step s1 (Resched tk tau)) HI2 HC) as (HC3 & HI3 & _).
+  { rewrite Hg2, Hg. destruct (is_issue e); lia. }
+  { exact Hnr2. }
+  assert (Es : run init (evs1 ++ Resched tk tau :: evs2) = run (step s1 (Resched tk tau)) evs2) by (rewrite run_app; reflexivity).
+  rewrite Es in *.
+  destruct (fire_inv _ _ _ _ Ho Hf) as (i & _ & Hi & Oi & Si & Hd & _). destruct HC3 as (_ & HC3).
+  rewrite (HC3 i Hi Oi Si) in Hd. exact Hd.
+Qed.
